@@ -47,6 +47,8 @@ def pomdp_specs(draw, min_states=2, max_states=4, max_actions=3, max_obs=3, reve
     oscheme = draw(st.sampled_from(["int", "str", "int_gap"]))
     spec["k"] = k
     spec["obs"] = obs
+    if draw(st.integers(0, 3)) == 0:
+        spec["explicit_observations"] = list(draw(st.permutations(list(range(k)))))
     spec["olabels"] = [enc(o if oscheme == "int" else (5 * o - 2 if oscheme == "int_gap" else f"o{o}")) for o in range(k)]
     return spec
 
